@@ -155,7 +155,7 @@ pub(crate) mod kani_verif {
     inc_harness!(c13_inc_l6, 6);
     // @h name=c13_inc_l7 props=C13,C05,C03 tier=thorough kind=proved funcs=CompressedUsedLeafsIndexes::increment contract="same, 7 levels"
     inc_harness!(c13_inc_l7, 7);
-    // @h name=c13_inc_l8 props=C13,C05,C03 tier=quick kind=proved funcs=CompressedUsedLeafsIndexes::increment contract="same, 8 levels"
+    // @h name=c13_inc_l8 props=C13,C05,C03 tier=thorough kind=proved funcs=CompressedUsedLeafsIndexes::increment contract="same, 8 levels"
     inc_harness!(c13_inc_l8, 8);
 
     // ------------------------------------------------------------------ ReferenceImplPrivateKey::increment (outer; callee by contract)
@@ -331,7 +331,7 @@ pub(crate) mod kani_verif {
             }
         };
     }
-    // @h name=c08_root_seed_n32 props=C08,C09,C03,C01 tier=quick kind=proved cfg=w8 funcs=ReferenceImplPrivateKey::generate_root_seed_and_lms_tree_identifier contract="3 hash calls on the hash-sigs top-seed pre-images; (seed, I) = (out1, out2[..16]); depends only on the n stored seed bytes; every seed, every hash function; n=32"
+    // @h name=c08_root_seed_n32 props=C08,C09,C03,C01 tier=thorough kind=proved cfg=w8 funcs=ReferenceImplPrivateKey::generate_root_seed_and_lms_tree_identifier contract="3 hash calls on the hash-sigs top-seed pre-images; (seed, I) = (out1, out2[..16]); depends only on the n stored seed bytes; every seed, every hash function; n=32"
     rec_harness!(c08_root_seed_n32, check_root_seed::<32>(), 36);
     // @h name=c08_root_seed_n24 props=C08,C09!,C03,C01 tier=quick kind=proved cfg=w8 funcs=ReferenceImplPrivateKey::generate_root_seed_and_lms_tree_identifier contract="same, n=24 (8 backing bytes beyond the seed must not influence the result)"
     rec_harness!(c08_root_seed_n24, check_root_seed::<24>(), 36);
@@ -492,9 +492,9 @@ pub(crate) mod kani_verif {
         kani::cover!(fits, "representable list reachable");
         kani::cover!(L < 7 || !fits, "too long list reachable");
     }
-    // @h name=c11_sig_representable_l8 props=C11,C04!,C01!,C14 tier=quick kind=proved cfg=default timeout=900 funcs=CompressedParameterSet::from;CompressedParameterSet::to;hss_signature_is_representable contract="n=32, every 8-level list: keygen and key loading accept it iff 4 + sum lms_sig_len + 7*56 <= 65535 (tinyvec ArrayVec length is a u16); otherwise Err before any leaf is used"
+    // @h name=c11_sig_representable_l8 props=C11,C04!,C01!,C14! tier=quick kind=proved cfg=default timeout=900 funcs=CompressedParameterSet::from;CompressedParameterSet::to;hss_signature_is_representable contract="n=32, every 8-level list: keygen and key loading accept it iff 4 + sum lms_sig_len + 7*56 <= 65535 (tinyvec ArrayVec length is a u16); otherwise Err before any leaf is used"
     rec_harness!(c11_sig_representable_l8, check_representable::<8>(), 36);
-    // @h name=c11_sig_representable_l7 props=C11,C04,C01,C14 tier=quick kind=proved cfg=default timeout=900 funcs=CompressedParameterSet::from;CompressedParameterSet::to;hss_signature_is_representable contract="same, every 7-level list"
+    // @h name=c11_sig_representable_l7 props=C11,C04,C01,C14 tier=thorough kind=proved cfg=default timeout=900 funcs=CompressedParameterSet::from;CompressedParameterSet::to;hss_signature_is_representable contract="same, every 7-level list"
     rec_harness!(c11_sig_representable_l7, check_representable::<7>(), 36);
     // @h name=c11_sig_representable_l3 props=C11,C04,C01,C14 tier=thorough kind=proved cfg=default timeout=900 funcs=CompressedParameterSet::from;CompressedParameterSet::to contract="same, every 3-level list (always accepted)"
     rec_harness!(c11_sig_representable_l3, check_representable::<3>(), 36);
